@@ -147,6 +147,13 @@ template <class... Args> struct Runner {
         label(Sig<Args...>::name);
         ctx.sentinel.reserve(c.ops.size() + 8);
         foreignSub = other.subscribe([this](Args...) { ++foreignCalls; });
+        // "crowd": some cases start with many observers already subscribed (thresholds inside containers only show then)
+        static const int crowd[8] = {0, 0, 0, 0, 6, 18, 35, 70};
+        const int initial = crowd[(unsigned)hget(c, 1, 0) % 8];
+        const size_t maxObservers = (size_t)initial + 40;
+        ctx.sentinel.reserve(c.ops.size() + 8 + (size_t)initial);
+        for (int i = 0; i < initial; ++i) new_observer(i % 3 == 0 ? SUB_SELFVIEW : i % 3 == 1 ? SUB_PLAIN : SUB_UNIQUE_PTR);
+        if (initial >= 18) label("crowd_over_16"); if (initial >= 35) label("crowd_over_32");
         int opno = 0, notifies = 0;
         bool changing = false;
         for (const Op &o : c.ops) {
@@ -159,7 +166,7 @@ template <class... Args> struct Runner {
             bool live = m && m->subscribed;          // every real caller checks isValid() before using a handle
             bool done = true;
             switch (o.k) {
-            case SUB_PLAIN: case SUB_SELFVIEW: case SUB_UNIQUE_PTR: if (model.size() < 24) new_observer(o.k); else done = false; break;
+            case SUB_PLAIN: case SUB_SELFVIEW: case SUB_UNIQUE_PTR: if (model.size() < maxObservers) new_observer(o.k); else done = false; break;
             case H_UNSUB:
                 if (!live) { done = false; break; }
                 h->sub.unsubscribe(); m->subscribed = false; changing = true;
